@@ -17,7 +17,7 @@ import tempfile
 
 import numpy as np
 
-from mc.lib import Acc, tree_hash, trees_equal_bitwise
+from mc.lib import Acc, tree_hash, trees_equal_bitwise, on_path
 
 SHAPES = {"v": [3], "m": [4, 6]}
 SHAPES_C = {"v": [3], "c": [6, 7]}
@@ -223,6 +223,8 @@ def run_task(task):
     nxt = []
     for s, hist in frontier:
       for ev in ["gA", "gB"]:
+        if not on_path(task, hist + (ev,)):
+          continue
         _, s2 = m.step(s, alpha[ev])
         h2 = hist + (ev,)
         k = tree_hash(m.host(s2))
